@@ -172,6 +172,11 @@ class sptensor:
                 f"max subscripts are "
                 f"{tuple(np.max(subs, axis=0).astype(np.int64) + 1)}"
             )
+            assert np.min(subs) >= 0, "Subscripts must be non-negative"
+            assert vals.shape[0] == subs.shape[0], (
+                f"Number of values ({vals.shape[0]}) must match the number of "
+                f"subscripts ({subs.shape[0]})"
+            )
         else:
             # In case user provides an empty array in weird format
             subs = np.array([], ndmin=2, dtype=int)
